@@ -216,6 +216,7 @@ impl RecCtx<'_> {
                 be_violations: vec![],
                 judge_compact_size: false,
                 track_pins: false,
+                soft: vec![],
             };
             for (k, (id, snap)) in cp.psp.iter().enumerate() {
                 w.psp.insert(
